@@ -72,6 +72,7 @@ Integers == <<
 F(t, last) == L("float", "FLOAT_NUMBER", t, "d", last)
 Floats == <<
   F("1.", "dot"), F("1.5", "d"), F("0.0", "d"), F("1e3", "d"), F("1E-3", "d"), F("1.5e+3", "d"), F("1.e3", "d"),
+  F("1e+3", "d"), F("2E+1_0", "d"), F("7e-2", "d"), F("1.E+3", "d"),
   F("1_0.5_0", "d"), F("0e0", "d"), F("12.e-1_0", "d"),
   L("float", "FLOAT_NUMBER", ".5", "dot", "d"), L("float", "FLOAT_NUMBER", ".5e3", "dot", "d"),
   L("float", "FLOAT_NUMBER", ".0_1E+2", "dot", "d") >>
